@@ -11,7 +11,7 @@ from .common import CorrResult, Disagreement, Failure, PropertyCheck
 
 MAX_DRAWS = 300      # a run that asks torch for more draws than this is treated as non-terminating
 MAX_OUT = 4000
-EPOCHS = (0, 1, 2, 3)
+EPOCHS = (0, 2, 1, 0, 3)      # re-used objects see rewinds (2 -> 1 -> 0); fresh objects give the reference
 
 
 # ----------------------------------------------------------------------------------------------
@@ -31,6 +31,7 @@ class _RecGen:
 
     def manual_seed(self, seed):
         self._rec.event(["seed", int(seed)])
+        self.last_seed = int(seed)
         self._real.manual_seed(seed)
         return self
 
@@ -38,21 +39,28 @@ class _RecGen:
         return getattr(self._real, k)
 
 
-class _RecTensor:
-    """stands in for the result of torch.empty(...): records .random_()"""
+_REC_TENSOR_CLS = {}
 
-    def __init__(self, rec, real):
-        self._rec, self._real = rec, real
 
-    def random_(self, *a, generator=None, **kw):
+def _rec_tensor_class():
+    """a real torch.Tensor subclass (every tensor operation keeps working, so the code under test may use the result of
+    torch.empty(...) as an ordinary buffer) whose `.random_()` is recorded -- the `torch.empty((), dtype=int64).random_()` seed idiom"""
+    if "cls" not in _REC_TENSOR_CLS:
         import torch
-        bits = {torch.int64: 64, torch.int32: 32}.get(self._real.dtype, 0)
-        out = self._real.random_(*a, generator=self._rec.unwrap(generator), **kw)
-        self._rec.event(["random_", self._rec.gen_id(generator), bits], [int(out.item())])
-        return out
 
-    def __getattr__(self, k):
-        return getattr(self._real, k)
+        class _RecTensor(torch.Tensor):
+            def random_(self, *a, generator=None, **kw):
+                rec = getattr(self, "_kdv_rec", None)
+                plain = self.as_subclass(torch.Tensor)
+                if rec is None:
+                    return plain.random_(*a, generator=generator, **kw)
+                bits = {torch.int64: 64, torch.int32: 32}.get(plain.dtype, 0)
+                out = plain.random_(*a, generator=rec.unwrap(generator), **kw)
+                rec.event(["random_", rec.gen_id(generator), bits], [int(v) for v in out.flatten().tolist()])
+                return out
+
+        _REC_TENSOR_CLS["cls"] = _RecTensor
+    return _REC_TENSOR_CLS["cls"]
 
 
 class Recorder:
@@ -73,10 +81,13 @@ class Recorder:
             self.tape.append(result)
 
     def gen_id(self, g):
+        """which generator a draw uses, by PROVENANCE not by creation order: the value it was last seeded with (so a generator object
+        that is kept and re-seeded is the same as a new one seeded with that value)"""
         if g is None:
             return -1
         if isinstance(g, _RecGen):
-            return g.ordinal
+            ls = getattr(g, "last_seed", None)
+            return -3 if ls is None else ["seeded", ls]
         return -2
 
     def unwrap(self, g):
@@ -103,7 +114,9 @@ class Recorder:
         return out
 
     def empty(self, *a, **kw):
-        return _RecTensor(self, self.torch.empty(*a, **kw))
+        t = self.torch.empty(*a, **kw).as_subclass(_rec_tensor_class())
+        t._kdv_rec = self
+        return t
 
     def arange(self, *a, **kw):
         self.n_calls += 1
@@ -307,7 +320,26 @@ def run_real(case, W=None, ranks=None, epochs=None):
             res["runs"].append({"rank": rank, "ctor": _exc_kind(e)})
             continue
         for e in epochs:
-            r = run_one(s, rec, e, case["kind"])
+            if case["kind"] == "rand":
+                # RandomSampler draws its seed from the process-global torch state on every pass: one object, judged per pass
+                r = run_one(s, rec, e, case["kind"])
+            else:
+                # model-vs-code (requests + tape, exact) on a FRESH object for every epoch; the object that is re-used over the
+                # epochs (`s`) must give the same length and stream -- its internal call pattern may differ (correct memoisation),
+                # its output may not (stale state)
+                try:
+                    with recording(rec):
+                        fresh = build_real(case, rank, W)
+                    r = run_one(fresh, rec, e, case["kind"])
+                except Exception as ex:  # noqa
+                    r = {"epoch": e, "len": _exc_kind(ex), "iter": _exc_kind(ex), "reqs": [], "tape": []}
+                rs = run_one(s, rec, e, case["kind"])
+                r["_reused"] = {"len": rs["len"], "iter": rs["iter"], "out": rs.get("out")}
+                # a second pass in the SAME epoch without another set_epoch: equal (seed, epoch) must reproduce the draw
+                try:
+                    r["_reused"]["again"] = [int(i) for i in itertools.islice(iter(s), MAX_OUT + 1)]
+                except Exception as ex:  # noqa
+                    r["_reused"]["again"] = _exc_kind(ex)
             r["rank"], r["ctor"] = rank, "ok"
             res["runs"].append(r)
     return res
@@ -337,6 +369,21 @@ def model_request(case, real):
     if kind == "semi":
         return {"op": "s.semi", "classes": case["classes"], "L": case["L"], "U": case["U"], "seed": case["seed"], "W": case["W"],
                 "mode": case["mode"], "runs": runs}
+
+
+def canon_model_reqs(reqs):
+    """the model numbers generators by creation order and seeds each right after creating it: replace the ordinal in every draw
+    request by the seed value of that generator (the form the recorder uses for the real code)"""
+    seeds, out = [], []
+    for q in reqs:
+        if q and q[0] == "seed":
+            seeds.append(q[1])
+            out.append(q)
+        elif len(q) >= 2 and isinstance(q[1], int) and 0 <= q[1] < len(seeds):
+            out.append([q[0], ["seeded", seeds[q[1]]]] + list(q[2:]))
+        else:
+            out.append(q)
+    return out
 
 
 def canon_real(r):
@@ -394,7 +441,14 @@ def _by(real):
 
 
 def _unexpected(case, real, pid):
-    """an in-domain run must neither raise nor hang"""
+    """an in-domain run must neither raise nor hang; a sampler object re-used over several epochs must give what a fresh one gives"""
+    for r in real["runs"]:
+        ru = r.get("_reused")
+        if ru is not None and r.get("ctor") == "ok" and r.get("iter") == "ok" and \
+                (ru["iter"] != "ok" or ru["out"] != r.get("out") or ru["len"] != r.get("len") or ru.get("again", r.get("out")) != r.get("out")):
+            return Failure(f"{case['kind']}:reused-object", f"a sampler object re-used over the epochs gives another stream / length in epoch "
+                           f"{r.get('epoch')} (rank {r['rank']}) than a fresh object with equal (seed, epoch) for {case_tag(case)}", case,
+                           {"len": r.get("len"), "out": r.get("out")}, ru)
     for r in real["runs"]:
         bad = None
         if r["ctor"] != "ok":
@@ -823,6 +877,8 @@ class SamplersCheck(PropertyCheck):
                 continue
             bad = None
             for r, m in zip(real["runs"], ans["runs"]):
+                if isinstance(m, dict) and isinstance(m.get("reqs"), list):
+                    m = dict(m, reqs=canon_model_reqs(m["reqs"]))
                 cr = canon_real(r)
                 res.bump(f"{case['kind']}:ctor={cr.get('ctor')}" + (f":iter={cr.get('iter')}" if "iter" in cr else ""))
                 if cr != m and bad is None:
